@@ -589,6 +589,35 @@ def rule_constructors(ctx, ci):
         bad0.append(("outcome", [(p.kind, short(repr(p.value), 80)) for p in ps0]))
     else:
         bad0 = [(label, got) for label, name, got in ps0[0].value if got != [(name, 4)]]
+    # names are names: two spellings of one pitch class held in different octaves are two names, and an octave that is
+    # given is the octave (0 is an octave)
+    def go1(it):
+        out = {}
+        c = it.call(AClass(ci), [["C#-4", "Db-5"]], {}, None)
+        out["names C#-4 Db-5"] = (it.call_method(c, "get_note_names", [], {}, None), it.compare(ast.In, "Db", c), it.compare(ast.In, "C#", c))
+        c = it.call(AClass(ci), [["C-4", "B#-4"]], {}, None)
+        out["names C-4 B#-4"] = (it.call_method(c, "get_note_names", [], {}, None), it.compare(ast.In, "B#", c), it.compare(ast.In, "C", c))
+        c = it.call(AClass(ci), [["E-4", "Fb-5", "E-5"]], {}, None)
+        out["names E-4 Fb-5 E-5"] = (it.call_method(c, "get_note_names", [], {}, None), it.compare(ast.In, "Fb", c), it.compare(ast.In, "E", c))
+        c = it.call(AClass(ci), [["G-4"]], {}, None)
+        it.call_method(c, "add_note", ["C", 0], {}, None)
+        out["add_note('C', 0)"] = [(n.attrs.get("name"), n.attrs.get("octave")) for n in it.getattr(c, "notes")]
+        c = it.call(AClass(ci), [[["C", 0], ["E", 0]]], {}, None)
+        out["[['C', 0], ['E', 0]]"] = [(n.attrs.get("name"), n.attrs.get("octave")) for n in it.getattr(c, "notes")]
+        c = it.call(AClass(ci), [["A-4"]], {}, None)
+        it.binop(ast.Add, c, [["D", 0]])
+        out["+ [['D', 0]]"] = [(n.attrs.get("name"), n.attrs.get("octave")) for n in it.getattr(c, "notes")]
+        return out
+    try:
+        ps1 = explore(lambda ch: Interp(repo, ch, max_depth=60), go1)
+    except CannotDecide as e:
+        raise AnalysisError("names and given octaves: %s" % e)
+    want1 = {"names C#-4 Db-5": (["C#", "Db"], True, True), "names C-4 B#-4": (["C", "B#"], True, True), "names E-4 Fb-5 E-5": (["E", "Fb"], True, True),
+             "add_note('C', 0)": [("C", 0), ("G", 4)], "[['C', 0], ['E', 0]]": [("C", 0), ("E", 0)], "+ [['D', 0]]": [("D", 0), ("A", 4)]}
+    bad1 = [("outcome", [(p.kind, short(repr(p.value), 80)) for p in ps1])] if len(ps1) != 1 or ps1[0].kind != "return" else \
+        [(k, ps1[0].value.get(k), "expected", w) for k, w in want1.items() if (tuple(ps1[0].value.get(k)) if isinstance(w, tuple) else ps1[0].value.get(k)) != w]
+    ctx.check(not bad1, R, "names-and-given-octaves", repo.find_method(ci, "get_note_names").where(), "get_note_names / membership with enharmonic spellings in different octaves; octave 0 given to add_note, to a list and to +",
+              "%d differ: %s" % (len(bad1), bad1[:3]))
     ctx.check(not bad0, R, "first-note[octave 4]", repo.find_method(ci, "add_note").where(), "a bare name placed in an empty container, 8 names x 3 ways",
               "%d are not the name in octave 4: e.g. %s" % (len(bad0), bad0[:3]))
     ctx.check(not bad, R, "from_interval_shorthand[pitches]", fi.where(), "from_interval_shorthand(start, shorthand, up) for 6 start notes x 14 shorthands x both directions",
